@@ -112,7 +112,10 @@ func (sc *RangeScanner) Scan() bool {
 		// We rely here on the fact that \r\n is considered a grapheme cluster
 		// and so we don't need to worry about miscounting additional lines
 		// on files with Windows-style line endings.
-		if len(gr) != 0 && (gr[0] == '\r' || gr[0] == '\n') {
+		// A line break is "\n" or "\r\n" (a single grapheme cluster), as
+		// for the positions reported by the native syntax scanner; a lone
+		// "\r" is an ordinary character.
+		if len(gr) != 0 && gr[len(gr)-1] == '\n' {
 			new.Column = 1
 			new.Line++
 		}
